@@ -605,7 +605,11 @@ pub fn radix_out_check<T: StrApi>(run: &mut Run) {
     }
     let tier = run.tier;
     let bits = T::BITS;
-    let (label, vals): (&str, Vec<Vec<u8>>) = if bits <= 16 {
+    let huge = T::N > 100;
+    let (label, vals): (&str, Vec<Vec<u8>>) = if huge {
+        // the widest configurations (8192 bits): a dozen dense / sparse values against twelve radices
+        ("HUGE: 14 dense / sparse values x 12 radices", sets::huge(T::DIGIT_BITS, T::N).into_iter().take(14).collect())
+    } else if bits <= 16 {
         ("FULL x radices", sets::full(bits))
     } else if bits == 24 && tier == Tier::Thorough {
         ("FULL(24) x 12 radices + GRID x all", sets::full(24))
@@ -614,7 +618,7 @@ pub fn radix_out_check<T: StrApi>(run: &mut Run) {
     };
     let all: Vec<u32> = (2..=256).collect();
     let few: Vec<u32> = vec![2, 3, 7, 8, 10, 16, 32, 36, 64, 128, 255, 256];
-    let radices: &Vec<u32> = if bits == 24 && tier == Tier::Thorough {
+    let radices: &Vec<u32> = if (bits == 24 && tier == Tier::Thorough) || huge {
         &few
     } else if tier == Tier::Thorough || bits <= 64 || vals.len() <= 1200 {
         &all
@@ -632,6 +636,9 @@ pub fn radix_out_check<T: StrApi>(run: &mut Run) {
         }
     });
     run.merge(&config, label, "radix output", vs.len() as u64 * radices.len() as u64, l);
+    if huge {
+        return;
+    }
     // directed values per radix: powers of the radix, interior zero runs, power-valued top digits
     let ti = T::ti();
     let l = par_chunks(run.threads, all.len(), |lo, hi, l| {
